@@ -19,6 +19,8 @@ import SqiProofs.SpongeMain
 import SqiProofs.Challenge
 import SqiProofs.C20Kat
 import SqiProofs.DrbgRefine
+import SqiProofs.DrbgInc
+import SqiGen.Drbg
 
 namespace SqiProps.C20
 open SqiModel SqiModel.Sponge
@@ -186,6 +188,49 @@ theorem randombytes_deterministic (E : List UInt8 → List UInt8 → List UInt8)
     (pers pers' : Option (List UInt8)) (reqs reqs' : List Nat) (h1 : seed = seed') (h2 : pers = pers') (h3 : reqs = reqs') :
     Drbg.Model.run E (Drbg.Model.init E seed pers) reqs = Drbg.Model.run E (Drbg.Model.init E seed' pers') reqs' := by
   rw [h1, h2, h3]
+
+/-- the literals of the two `increment V` loops of randombytes_ctrdrbg.c (re-extracted on every run; tie T), the array
+    sizes of `AES256_CTR_DRBG_struct` and the number of blocks of the Update function are the ones the model assumes:
+    both loops run j = 15 … 0 over V[16], test against 0xff, reset to 0x00 -/
+theorem ctr_increment_extracted :
+    SqiGen.Drbg.V_LEN = 16 ∧ SqiGen.Drbg.KEY_LEN = 32 ∧ SqiGen.Drbg.UPD_BLOCKS = 3 ∧
+    SqiGen.Drbg.gen_hi = 15 ∧ SqiGen.Drbg.gen_lo = 0 ∧ SqiGen.Drbg.gen_cmp = 0xff ∧ SqiGen.Drbg.gen_reset = 0 ∧
+    SqiGen.Drbg.gen_cmp_int = 255 ∧ SqiGen.Drbg.gen_reset_int = 0 ∧
+    SqiGen.Drbg.upd_hi = 15 ∧ SqiGen.Drbg.upd_lo = 0 ∧ SqiGen.Drbg.upd_cmp = 0xff ∧ SqiGen.Drbg.upd_reset = 0 ∧
+    SqiGen.Drbg.upd_cmp_int = 255 ∧ SqiGen.Drbg.upd_reset_int = 0 := by decide
+
+/-- the increment loop of `randombytes_nist`, with the extracted literals, is `V := (V + 1) mod 2^128` on the big-endian
+    value of V — for every 16-byte V (all carry chains, including the wrap of all-ones to zero) — and is the `incV` the
+    DRBG model (and hence `randombytes_eq_spec`) uses -/
+theorem ctr_increment_gen_eq_spec (v : List UInt8) (h : v.length = SqiGen.Drbg.V_LEN) :
+    Drbg.Model.incLoop SqiGen.Drbg.gen_hi SqiGen.Drbg.gen_lo SqiGen.Drbg.gen_cmp SqiGen.Drbg.gen_reset v
+      = Drbg.beBytes 16 ((Drbg.beNat v + 1) % 2 ^ 128) ∧
+    Drbg.Model.incLoop SqiGen.Drbg.gen_hi SqiGen.Drbg.gen_lo SqiGen.Drbg.gen_cmp SqiGen.Drbg.gen_reset v
+      = Drbg.Model.incV v := by
+  have e := ctr_increment_extracted
+  rw [e.1] at h
+  rw [e.2.2.2.1, e.2.2.2.2.1, e.2.2.2.2.2.1, e.2.2.2.2.2.2.1, SqiProofs.Drbg.incLoop_eq_incV v 15 h]
+  exact ⟨SqiProofs.Drbg.incV_eq v h, rfl⟩
+
+/-- the same for the increment loop inside `AES256_CTR_DRBG_Update` -/
+theorem ctr_increment_upd_eq_spec (v : List UInt8) (h : v.length = SqiGen.Drbg.V_LEN) :
+    Drbg.Model.incLoop SqiGen.Drbg.upd_hi SqiGen.Drbg.upd_lo SqiGen.Drbg.upd_cmp SqiGen.Drbg.upd_reset v
+      = Drbg.beBytes 16 ((Drbg.beNat v + 1) % 2 ^ 128) ∧
+    Drbg.Model.incLoop SqiGen.Drbg.upd_hi SqiGen.Drbg.upd_lo SqiGen.Drbg.upd_cmp SqiGen.Drbg.upd_reset v
+      = Drbg.Model.incV v := by
+  have e := ctr_increment_extracted
+  rw [e.1] at h
+  rw [e.2.2.2.2.2.2.2.2.2.1, e.2.2.2.2.2.2.2.2.2.2.1, e.2.2.2.2.2.2.2.2.2.2.2.1, e.2.2.2.2.2.2.2.2.2.2.2.2.1,
+    SqiProofs.Drbg.incLoop_eq_incV v 15 h]
+  exact ⟨SqiProofs.Drbg.incV_eq v h, rfl⟩
+
+/-- non-vacuity / carry chains: low 4 bytes all ones carries into byte 11; all-ones wraps to zero -/
+example : Drbg.Model.incLoop 15 0 0xff 0 [1, 2, 3, 4, 5, 6, 7, 8, 9, 10, 11, 12, 0xff, 0xff, 0xff, 0xff]
+    = [1, 2, 3, 4, 5, 6, 7, 8, 9, 10, 11, 13, 0, 0, 0, 0] ∧
+    Drbg.Model.incLoop 15 0 0xff 0 (List.replicate 16 0xff) = List.replicate 16 0 := by decide
+/-- … and a loop that stops at j = 12 is *not* the specification increment (the seeded change C20-m2) -/
+example : Drbg.Model.incLoop 15 12 0xff 0 [1, 2, 3, 4, 5, 6, 7, 8, 9, 10, 11, 12, 0xff, 0xff, 0xff, 0xff]
+    ≠ Drbg.Model.incV [1, 2, 3, 4, 5, 6, 7, 8, 9, 10, 11, 12, 0xff, 0xff, 0xff, 0xff] := by decide
 
 /-- `randombytes` refines SP 800-90A CTR_DRBG_Generate (V an integer mod 2^128, no additional input, update with
     0^384): the bytes returned are the specification's, the new (Key, V, reseed_counter) is the specification's, and the
